@@ -73,6 +73,7 @@ class Block:
         self.timeout = None
         self.tier = 'quick'
         self.bounded = None
+        self.axioms = {}          # name -> (bound, body with {k}): universally quantified definitional precondition
 
 
 TAG_RE = re.compile(r'^\[([A-Za-z0-9 ]+)\]\s*')
@@ -236,11 +237,25 @@ def add_clause(b, kw, rest, path, ln):
             b.tags |= set(m.group(1).split())
     elif kw == 'tags':
         b.tags |= set(rest.split())
+    elif kw == 'axiom':
+        # 'axiom NAME <bound> :: <body with {k}>' -- the universally quantified precondition "for all k < bound: body(k)"
+        # over ghost data only (a definition of ghost symbols, e.g. prefix sums).  It is never handed to the solver as a
+        # quantifier: the small instance writes it out for k = 0..7, the unbounded run uses it ONLY through the
+        # substitution instances named by 'loop N instance NAME <term>' (each a logical consequence of the axiom, generated
+        # from this text by substitution).  What is proved: for all ghost data, if the instances hold the postconditions
+        # hold -- hence the postconditions hold whenever the axiom holds.
+        nm, _, r2 = rest.partition(' ')
+        bound, _, body = r2.partition('::')
+        b.axioms[nm] = (bound.strip(), body.strip())
     elif kw == 'loop':
         n, k2, r2 = rest.split(' ', 2) if rest.count(' ') >= 2 else (rest.split(' ') + [''])[:3]
-        d = b.loops.setdefault(int(n), {'invariant': [], 'assigns': None, 'decreases': None})
+        d = b.loops.setdefault(int(n), {'invariant': [], 'assigns': None, 'decreases': None, 'instance': []})
+        d.setdefault('instance', [])
         if k2 == 'invariant':
             d['invariant'].append(r2)
+        elif k2 == 'instance':
+            # 'loop N instance NAME <term> [x:=y ...]': at the start of every iteration, the instance k := <term> of axiom NAME
+            d['instance'].append(r2)
         else:
             d[k2] = r2
     elif kw == 'solvers':
@@ -316,6 +331,9 @@ def clause_lines(b, enforce=True):
     out = []
     for r in b.requires:
         out.append(('requires', None, '__CPROVER_requires(%s)' % r))
+    for nm, (bound, body) in sorted(b.axioms.items()):
+        u = ' && '.join('(!(%d < (%s)) || (%s))' % (k, bound, body.replace('{k}', str(k))) for k in range(8))
+        out.append(('requires', None, '__CPROVER_requires(BS_SEL(1, (%s)))' % u))
     for ent in b.ensures:
         tags, e = ent[0], ent[1]
         if len(ent) > 2 and ent[2] != 0 and enforce:
@@ -336,6 +354,18 @@ def loop_clauses(b):
             cl.append('__CPROVER_assigns(%s)' % lc['assigns'])
         for inv in lc['invariant']:
             cl.append('__CPROVER_loop_invariant(%s)' % inv)
+        for ins in lc.get('instance') or []:
+            parts = ins.split()
+            nm, term, subs = parts[0], parts[1], parts[2:]
+            if nm not in b.axioms:
+                raise Undecided('contract block %s: instance of the unknown axiom %s' % (b.name, nm))
+            bound, body = b.axioms[nm]
+            txt = '!((%s) < (%s)) || (%s)' % (term, bound, body.replace('{k}', '(%s)' % term))
+            for su in subs:
+                x, y = su.split(':=')
+                txt = re.sub(r'\b%s\b' % re.escape(x), y, txt)
+            # '@@' = a statement at the start of the loop body (fe/bs2c.py), not a loop-contract clause
+            cl.append('@@__CPROVER_assume(%s); /* instance %s of axiom %s */' % (txt, term, nm))
         if lc.get('decreases'):
             cl.append('__CPROVER_decreases(%s)' % lc['decreases'])
         d['loop%d' % n] = cl
@@ -558,6 +588,12 @@ def gen_c(b, blocks, path):
         for c in sorted(getattr(fi, 'calls', None) or []):
             todo.append(c)
     b.replace_eff = [r for r in rep_names if r in seen and r != b.fn]
+    for r_ in b.replace_eff:
+        cb_ = byname.get(r_)
+        for nm, ax in (getattr(cb_, 'axioms', None) or {}).items():
+            if b.axioms.get(nm) != ax:
+                raise Undecided('contract block %s uses %s through its contract, which holds under axiom %s: the block must '
+                                'declare the same axiom' % (b.name, r_, nm))
     order = [fi for fi in u.order if fi in need]
     for fi in need:
         if fi not in order:
